@@ -45,7 +45,7 @@ def _is_filtered_reader(g: FuncInfo) -> bool:
     """Every element `g` collects (append) is reached only through the live edge of `record.is_expired(now)` with g's own
     time parameter, and what it returns is the list it collected into."""
     cfg = cfg_of(g.node)
-    app = cfg.nodes_calling('append')
+    app = [n_ for nm_ in ('append', 'insert', 'add') for n_ in cfg.nodes_calling(nm_)]
     if not app:
         return False
     guards = [(t, live) for p_ in g.params[1:] for t, live in _expiry_tests(cfg, p_)]
@@ -292,19 +292,28 @@ def match(ctx: Any) -> List[Ob]:
     return obs
 
 
-ROUND_TYPE_EXPR: Dict[int, ast.AST] = {}
+def round_type_values(ctx: Any, roles: Dict[str, str], forced: Any, is_first: bool) -> Set[Any]:
+    """The question type handed to the query builder in a round of the lookup loop, for a given forced type and first-round
+    flag: evaluated along every path of one trip of the loop from the loop test to the call (so it does not matter whether
+    the type is named by one local, chosen in the arms of an `if`, or written in the argument)."""
+    from sa import fd as _fd
 
-
-def round_type_value(ctx: Any, roles: Dict[str, str]) -> ast.AST:
-    """The expression that decides the question type of a round of the lookup: the value of the local that names it, or the
-    argument handed to the query builder when no local does."""
     f = ctx.prog.func(INFO + '.async_request')
-    if roles['qtype']:
-        asg = [st for st in walk_local_ordered(f.node) if isinstance(st, ast.Assign) and isinstance(st.targets[0], ast.Name) and st.targets[0].id == roles['qtype']]
-        if len(asg) != 1:
-            raise AnalysisError('anchor vanished: question type of the round in async_request')
-        return asg[0].value
-    return ROUND_TYPE_EXPR[id(ctx.prog)]
+    cfg = cfg_of(f.node)
+    lts = [n for n in cfg.nodes if n.kind == 'loop_test']
+    if len(lts) != 1:
+        raise AnalysisError('anchor vanished: the lookup loop of async_request')
+    out: Set[Any] = set()
+
+    def eff(node: Any, evl: Any) -> List[Any]:
+        for c in _fd.node_calls(node, evl):
+            if call_name(c) == '_generate_request_query' and len(c.args) >= 3:
+                v = evl.ev(c.args[2])
+                out.add('UNKNOWN' if isinstance(v, _fd._Unknown) else v)
+        return []
+
+    _fd.run_paths(ctx.prog, f.module, cfg, {f.params[3]: forced, '._is_complete': False}, eff, start=lts[0], stop=lambda n: n is lts[0], init_locals={roles['first']: is_first}, loop_bound=1)
+    return out
 
 
 def request_roles(ctx: Any) -> Dict[str, str]:
@@ -342,9 +351,8 @@ def request_roles(ctx: Any) -> Dict[str, str]:
                     roles['next'] = (pair - {roles['now']}).pop()
     for c in walk_local_ordered(f.node):
         if isinstance(c, ast.Call) and call_name(c) == '_generate_request_query' and len(c.args) >= 3:
-            # the question type of the round: a local, or the expression itself when none names it (ROUND_TYPE_EXPR)
+            # the question type of the round: a local, or '' when none names it (round_type_values evaluates either)
             roles['qtype'] = c.args[2].id if isinstance(c.args[2], ast.Name) and c.args[2].id not in f.params else ''
-            ROUND_TYPE_EXPR[id(ctx.prog)] = c.args[2]
     for k in ('now', 'delay', 'last', 'qtype', 'first'):
         if k not in roles:
             raise AnalysisError(f'anchor vanished: `{k}` of the lookup loop in {f.where()}')
@@ -462,8 +470,25 @@ def bound(ctx: Any) -> List[Ob]:
     rl = [n for n in racfg.nodes if n.kind == 'for' and norm(n.ast.iter) == ra.params[0] and isinstance(n.ast.target, ast.Name)]
     ok_ra = False
     if len(rl) == 1:
-        oc_ra, _ = fd.run_paths(prog, ra.module, racfg, {}, lambda n, e: [('R', tuple(norm(a) for a in c.args)) for c in fd.node_calls(n, e) if call_name(c) == '_set_future_none_if_not_done'], start=rl[0], stop=lambda n: n is rl[0], loop_bound=1, for_iter=lambda n, e: True)
-        ok_ra = {tuple(x for x in strip_ret(t) if isinstance(x, tuple)) for t in oc_ra} == {(('R', (rl[0].ast.target.id,)),)}
+        tv_ra = rl[0].ast.target.id
+
+        def eff_ra(n: Any, e: Any) -> List[Any]:
+            out_ = []
+            for c in fd.node_calls(n, e):
+                # through the only-if-not-done setter (decided above), or spelled out here
+                if call_name(c) == '_set_future_none_if_not_done' and [norm(a) for a in c.args] == [tv_ra]:
+                    out_.append('GUARDED-SET')
+                elif call_name(c) == 'set_result' and isinstance(c.func, ast.Attribute) and norm(c.func.value) == tv_ra:
+                    out_.append('SET')
+                elif call_name(c) in ('_set_future_none_if_not_done', 'set_result', 'cancel', 'set_exception'):
+                    out_.append('OTHER')
+            return out_
+
+        ok_ra = True
+        for done in (False, True):
+            oc_ra, _ = fd.run_paths(prog, ra.module, racfg, {'.done()': done}, eff_ra, start=rl[0], stop=lambda n: n is rl[0], loop_bound=1, for_iter=lambda n, e: True)
+            got_ra = {tuple(x for x in strip_ret(t) if isinstance(x, str)) for t in oc_ra}
+            ok_ra = ok_ra and bool(got_ra) and all(sq in ((('GUARDED-SET',), ('SET',)) if not done else (('GUARDED-SET',), ())) for sq in got_ra)
     obs.append(ob(R, ra, rl[0].ast if rl else ra.name, 'waking the waiters resolves every future of the set', ok_ra))
     aw_f = prog.func('zeroconf._services.info.ServiceInfo.async_wait')
     fw = [c for c in walk_local_ordered(aw_f.node) if isinstance(c, ast.Call) and call_name(c) == 'wait_for_future_set_or_timeout']
@@ -622,7 +647,7 @@ def bound(ctx: Any) -> List[Ob]:
             good_api = passed and not und_api and ((rets_api == {None}) if not okr else (len(rets_api) == 1 and None not in rets_api and all(isinstance(r_.value, ast.Name) and r_.value.id == holder for r_ in walk_local_ordered(api.node) if isinstance(r_, ast.Return) and r_.value is not None and not (isinstance(r_.value, ast.Constant) and r_.value.value is None))))
             obs.append(ob(R, api, f'{api.name}: the request {"succeeds" if okr else "fails"}', f'returns {"the description that made the request" if okr else "None"} (timeout and question type passed through)', good_api, f'returns {sorted(map(str, rets_api))}; arguments passed through: {passed}'))
     ret = [r for r in walk_local_ordered(lc.node) if isinstance(r, ast.Return)]
-    obs.append(ob(R, lc, ret[0].value if ret else 'return', 'the cache suffices iff the description is complete afterwards', len(ret) == 1 and norm(ret[0].value) == f'{lc.params[0]}._is_complete'))
+    obs.append(ob(R, lc, next((r_.value for r_ in ret if r_.value is None or norm(r_.value) != f'{lc.params[0]}._is_complete'), ret[0].value if ret else None) or 'return', 'the cache suffices iff the description is complete afterwards', bool(ret) and all(r_.value is not None and norm(r_.value) == f'{lc.params[0]}._is_complete' for r_ in ret)))
     return obs
 
 
